@@ -973,7 +973,7 @@ func peekRule(c *core.Ctx) {
 		if nOK == 0 {
 			problems = append(problems, "no accepting path")
 		}
-		c.Decide(len(problems) == 0, "C10-PEEK", key, pos, fmt.Sprintf("%d paths, refusal only by len(buf) < header size", len(ps)), strings.Join(dedup(problems), "; "))
+		pathDetail := fmt.Sprintf("%d paths, refusal only by len(buf) < header size", len(ps))
 		// the peeked header is the header the decoders read: every field comes from the offset at which the sibling
 		// ReadHeader reads it sequentially (big-endian, same width), and a buffer is refused exactly when it is shorter
 		// than the header
@@ -1080,6 +1080,16 @@ func peekRule(c *core.Ctx) {
 			lp = append(lp, fmt.Sprintf("a buffer is refused when shorter than %d octets, the header has %d: %s", thr, total,
 				map[bool]string{true: "a header-only PDU of exactly the header's length is refused", false: "a shorter buffer reaches the field reads"}[thr > total]))
 		}
+		// a peek written with loops, local arrays, a closure or a re-sliced cursor: the path rules above do not follow it;
+		// it is evaluated with concrete control over symbolic header words instead (every run, each with its interval of
+		// buffer lengths), and that verdict is the one reported
+		if (len(problems) > 0 || len(lp) > 0) && why1 == "" {
+			if outs, whyNot := peekEvaluate(fn, c.Prog.Pos); whyNot == "" {
+				problems, lp = peekVerdict(outs, want, total)
+				pathDetail = fmt.Sprintf("%d runs evaluated with concrete control: refusal only by len(buf) < header size, every read within the length established", len(outs))
+			}
+		}
+		c.Decide(len(problems) == 0, "C10-PEEK", key, pos, pathDetail, strings.Join(dedup(problems), "; "))
 		c.Decide(len(lp) == 0, "C10-PEEK", key+"#layout", pos, fmt.Sprintf("%d fields at ReadHeader's offsets, refused iff len(buf) < %d", len(want), total), strings.Join(dedup(lp), "; "))
 	}
 }
